@@ -168,7 +168,7 @@ def harnesses(tier):
     q = tier == "quick"
     T = 600 if q else 900
     hs = []
-    k, w = (4, 3) if q else (5, 4)
+    k, w = (4, 3) if q else (4, 4)
     hs.append(H("soundness", soundness,
                 dict(k=k, w=w, daggers=False, semantic=True), FUNCS,
                 covers=["normalised", "snake-removed", "refused"],
@@ -179,6 +179,12 @@ def harnesses(tier):
                 "under tensor.Functor with dim 2 and generic box arrays"
                 % (k, w), outside="dimension != 2; deeper diagrams",
                 timeout_s=T))
+    if not q:
+        hs.append(H("deeper", soundness,
+                    dict(k=5, w=3, daggers=False, semantic=False), FUNCS,
+                    covers=["normalised", "snake-removed"],
+                    engine="DSE (shapes)", bounds="5 layers, width <= 3, "
+                    "structural checks only", timeout_s=T))
     k, w = (3, 3) if q else (4, 3)
     hs.append(H("adjoint_types", soundness,
                 dict(k=k, w=w, daggers=True, semantic=False), FUNCS,
